@@ -92,7 +92,9 @@ def repeatability_conformance():
 def run():
     work = Work("extras")
     import dispatch
-    out = {"provider": provider_conformance(work), "repeatability": repeatability_conformance(), "dispatch": dispatch.conformance(work)}
+    import evalcheck
+    hints = evalcheck.hint_wording_conformance(work)
+    out = {"hint_wording": hints, "provider": provider_conformance(work), "repeatability": repeatability_conformance(), "dispatch": dispatch.conformance(work)}
     work.cleanup()
     (VERIF / "evidence" / "extras.json").write_text(json.dumps(out, indent=1) + "\n")
     for k, v in out["provider"]["deviations"].items():
@@ -102,10 +104,13 @@ def run():
     for k, v in out["dispatch"]["deviations"].items():
         print(f"OBSERVATION dispatch: {v['count']} calls deviate from Dispatch.tla ({k}); e.g. {v['example']}")
     print(f"extras: dispatch {out['dispatch']['agree']}/{out['dispatch']['calls_replayed']} calls agree ({out['dispatch']['states']} states)")
+    for d in out["hint_wording"]["deviations"]:
+        print(f"OBSERVATION hint wording: {d}")
+    print(f"extras: hint wording {out['hint_wording']['agree']}/{out['hint_wording']['evaluations']} evaluations agree ({out['hint_wording']['states']} states)")
     bad_declared = out["provider"]["deviations"].get("all instances declare format and version")
     # get_evaluation_method of the mapping based evaluators is a known deviation from its documentation (DESIGN 12.5a); anything else fails
     bad_dispatch = [k for k in out["dispatch"]["deviations"] if not (k.endswith("/get_method") and k.split("/")[1] in ("dict", "cer"))]
-    return 1 if (bad_declared or out["repeatability"]["deviations"] or bad_dispatch) else 0
+    return 1 if (bad_declared or out["repeatability"]["deviations"] or bad_dispatch or out["hint_wording"]["deviations"]) else 0
 
 
 if __name__ == "__main__":
